@@ -1,3 +1,58 @@
-import Chain33Model.Model.C15
+import Chain33Model.Proofs.C15Run
+/-!
+C15 — Assets are conserved and balances never go negative.  Property theorems only.
+
+Model: `Model/C15.lean` (`step : Cfg → State → Op → State × Res`, Go int64 arithmetic as explicit
+`wrap`).  Quantities (`supply`, `subSum`, `deficit`, `NonNeg`, `MainOK`, `WF`, `GenesisOK`,
+`opSupply`, `granted`) are defined in `Proofs/C15.lean`.  `σ` = address spellings, `κ` = storage
+keys, `c.norm` = `address.FormatAddrKey`; every theorem holds for *every* `norm`.
+-/
 namespace C15
+section
+variable {σ κ : Type} [DecidableEq σ] [DecidableEq κ]
+
+/-! ## An operation that returns an error changes nothing -/
+
+/-- For every configuration, state and operation: if the result is one of the error values
+(`ErrAmount`, `ErrNoBalance`, `ErrSendSameToRecv`, `ErrNotAllowDeposit`) the store is unchanged. -/
+theorem err_no_change (c : Cfg σ κ) (s : State σ κ) (op : Op σ)
+    (h : (step c s op).2.isErr = true) : (step c s op).1 = s :=
+  step_err_unchanged c s op h
+
+/-! ## No balance or frozen amount becomes negative -/
+
+/-- Full statement of the property text: after any operation sequence nothing is negative. -/
+def NonnegFull (σ κ : Type) [DecidableEq σ] [DecidableEq κ] : Prop :=
+  ∀ (c : Cfg σ κ) (ops : List (Op σ)), NonNeg (run c State.init ops)
+
+/-- Main ledger, all sequence lengths: if no genesis grant is negative, every main balance stays
+in `[0, MaxTokenBalance]` and every frozen amount non-negative (`safeAdd`, checked subtraction). -/
+theorem nonneg_main_partial (c : Cfg σ κ) (ops : List (Op σ)) (hops : ∀ op ∈ ops, GenesisOK op) :
+    MainOK (run c State.init ops) :=
+  mainOK_run c ops hops mainOK_init
+
+/-- Both ledgers: if no genesis grant is negative and the sequence has at most 92 operations,
+no balance and no frozen amount is negative (each operation raises a sub-account field by less
+than `MaxCoin·precision = 10^17`, so 92 of them stay below 2^63).  Hypotheses added to the full
+statement: `GenesisOK` (finding: negative grant) and the length bound (finding: the sub-ledger
+adds without `safeAdd`). -/
+theorem nonneg_partial (c : Cfg σ κ) (ops : List (Op σ)) (hops : ∀ op ∈ ops, GenesisOK op)
+    (hlen : ops.length ≤ 92) : NonNeg (run c State.init ops) := by
+  have hm := mainOK_run c ops hops (mainOK_init (σ := σ) (κ := κ))
+  have hl : (ops.length : Int) ≤ 92 := by exact_mod_cast hlen
+  have hs := subB_run c ops 0 State.init (by omega) (by omega) (allv_nil _)
+  exact nonNeg_of_bounds hm hs
+
+/-! ## Total supply changes only by minted / burned / issued / granted amounts -/
+
+/-- For every operation list without negative genesis grants, the supply (sum of balance+frozen
+over the main ledger, an unbounded integer) after the run equals the sum of the amounts of the
+successful Mint (+), Burn (−), ExecIssueCoins (+), ExecDepositFrozen (+), GenesisInit (+),
+GenesisInitExec (+) operations; every other operation and every failed operation contributes 0. -/
+theorem supply_delta_partial (c : Cfg σ κ) (ops : List (Op σ)) (hops : ∀ op ∈ ops, GenesisOK op) :
+    supply (run c State.init ops) = granted c State.init ops := by
+  have := supply_run c ops hops (wf_init c) (mainOK_init (σ := σ) (κ := κ))
+  simpa [supply, State.init, asumP] using this
+
+end
 end C15
